@@ -57,7 +57,7 @@ def master(seed):
     k = int.from_bytes(I[:32], "big")
     if k == 0 or k >= C.n:
         return None
-    return {"k": k, "K": C.mul(k, C.G), "c": I[32:], "depth": 0, "fp": b"\0\0\0\0", "idx": 0}
+    return {"k": k, "K": C.mul_g(k), "c": I[32:], "depth": 0, "fp": b"\0\0\0\0", "idx": 0}
 
 
 def fingerprint(node):
@@ -75,7 +75,7 @@ def ckd_priv(node, i):
     k = (il + node["k"]) % C.n
     if il >= C.n or k == 0:
         return None
-    return {"k": k, "K": C.mul(k, C.G), "c": I[32:], "depth": node["depth"] + 1, "fp": fingerprint(node), "idx": i}
+    return {"k": k, "K": C.mul_g(k), "c": I[32:], "depth": node["depth"] + 1, "fp": fingerprint(node), "idx": i}
 
 
 def ckd_pub(node, i):
@@ -87,7 +87,7 @@ def ckd_pub(node, i):
     il = int.from_bytes(I[:32], "big")
     if il >= C.n:
         return None
-    K = C.add(C.mul(il, C.G), node["K"])
+    K = C.add(C.mul_g(il), node["K"])
     if K is None:
         return None
     return {"k": None, "K": K, "c": I[32:], "depth": node["depth"] + 1, "fp": fingerprint(node), "idx": i}
